@@ -486,6 +486,25 @@ def check_histories(tier, seed):
                 break
     except Exception as e:
         V(f"operation-raises: allowed setter: {type(e).__name__}: {e}", [])
+    # directed: the same reaction merged from two sources with its species in another order is found (and located) in every mode
+    fresh()
+    try:
+        a_ = Reaction(["CO", "H"], ["C", "O", "H"], alpha=1.0, reaction_type=RT.GAS_TWOBODY)
+        b_ = Reaction(["H", "CO"], ["H", "O", "C"], alpha=1.0, reaction_type=RT.GAS_TWOBODY)
+        c_ = Reaction(["C", "O"], ["CO"], alpha=2.0, reaction_type=RT.GAS_TWOBODY)
+        for mode in (None, "brief", "minimal", "short"):
+            net = Network([a_, c_, b_])
+            cases += 1
+            _, dupidx, _ = net.find_duplicate_reaction(mode)
+            if list(dupidx) != [2]:
+                V(f"dedup-by-format: mode {mode}: [CO+H->C+O+H, C+O->CO, H+CO->H+O+C] reports {list(dupidx)}, the third reaction repeats the first", [f"mode {mode}"])
+            if mode == "brief":
+                continue          # where_reaction takes None or a format name
+            w = net.where_reaction(b_, mode=mode)
+            if sorted(w) != [0, 2]:
+                V(f"where-by-format: mode {mode}: where_reaction(H+CO->H+O+C) = {w}, expected [0, 2]", [f"mode {mode}"])
+    except Exception as e:
+        V(f"operation-raises: directed permuted copy: {type(e).__name__}: {e}", [])
     nh = 40 if tier == "quick" else 400
     for h in range(nh):
         fresh()
@@ -501,7 +520,7 @@ def check_histories(tier, seed):
         def ok(r):
             return not allowed or all(s.name in allowed for s in r.reactants + r.products)
         for step in range(rnd.randint(3, 12)):
-            op = rnd.choice(["add", "add", "add", "remove_idx", "remove_list", "remove_list_rep", "remove_where", "remove_inst", "allow", "require", "dedup", "reindex"])
+            op = rnd.choice(["add", "add", "add", "remove_idx", "remove_list", "remove_list_rep", "remove_where", "remove_inst", "allow", "require", "dedup", "dedup_mode", "add_permuted", "add_permuted", "reindex"])
             try:
                 if op == "add":
                     r = mk()
@@ -557,6 +576,36 @@ def check_histories(tier, seed):
                     hist.append(f"remove duplicates {dupidx}")
                     net.remove_reaction(dupidx)
                     held = [r for k, r in enumerate(held) if k not in dupidx]
+                elif op == "add_permuted" and held:
+                    # the same reaction written with its species in another order (e.g. merged from a second source)
+                    src = rnd.choice(held)
+                    rs, ps = [s.name for s in src.reactants], [s.name for s in src.products]
+                    rnd.shuffle(rs)
+                    rnd.shuffle(ps)
+                    r = Reaction(rs, ps, alpha=src.alpha, reaction_type=RT.GAS_TWOBODY)
+                    hist.append(f"add {'+'.join(rs)}->{'+'.join(ps)} (permuted copy)")
+                    net.add_reaction(r)
+                    (held if ok(r) else skipped).append(r)
+                elif op == "dedup_mode" and held:
+                    mode = rnd.choice(["minimal", "short"])
+                    dupes, dupidx, first = net.find_duplicate_reaction(mode)
+                    seen_k, want_idx = set(), []
+                    for k, r in enumerate(held):
+                        kk = (tuple(sorted(s.name for s in r.reactants)), tuple(sorted(s.name for s in r.products)))
+                        if kk in seen_k:
+                            want_idx.append(k)
+                        seen_k.add(kk)
+                    hist.append(f"find_duplicate_reaction({mode!r}) -> {list(dupidx)}, remove them")
+                    if list(dupidx) != want_idx:
+                        V(f"dedup-by-format: mode {mode}: reported {list(dupidx)}, reactions equal up to species order are at {want_idx}", list(hist))
+                        break
+                    for k in want_idx:
+                        w = net.where_reaction(held[k], mode=mode)
+                        if k not in w:
+                            V(f"where-by-format: mode {mode}: reaction {k} not found by where_reaction: {w}", list(hist))
+                            break
+                    net.remove_reaction(list(dupidx))
+                    held = [r for k, r in enumerate(held) if k not in want_idx]
                 elif op == "reindex":
                     hist.append("reindex")
                     net.reindex()
@@ -633,9 +682,12 @@ def check_duplicates(tier, seed):
     nd = len(directed)
     for h in range(nd + (60 if tier == "quick" else 600)):
         fresh()
-        variant = h % 4      # 0,1: plain; 2: some reactions of UNKNOWN type (KROME-like); 3: electron spelled e- and E
+        variant = h % 6      # 0,1: plain; 2: some reactions of UNKNOWN type (KROME-like); 3: electron spelled e- and E;
+        #                      4: a species together with its own ice form / ion; 5: the same Reaction object held several times
         if variant == 3:
             alphabet = ["H", "H+", "e-", "E"]
+        elif variant == 4:
+            alphabet = ["H", "#H", "H+", "CO", "#CO", "H2"]
         else:
             alphabet = ["H", "H2", "C", "CH"]
         base = []
@@ -648,6 +700,9 @@ def check_duplicates(tier, seed):
             rnd.shuffle(rs)
             rnd.shuffle(ps)
             tmin, tmax = rnd.choice([(-1.0, -1.0), (10.0, 300.0), (300.0, 1000.0)])
+            if variant == 5 and reacs and rnd.random() < 0.4:
+                reacs.append(rnd.choice(reacs))          # the very same object again (e.g. a list concatenated with itself)
+                continue
             reacs.append(Reaction(rs, ps, tmin, tmax, float(rnd.randint(1, 5)), reaction_type=rnd.choice([RT.GAS_TWOBODY, RT.GAS_TWOBODY, RT.GAS_PHOTON] + ([RT.UNKNOWN] * 2 if variant == 2 else []))))
         if h < nd:
             reacs = [Reaction(list(a), list(b), -1.0, -1.0, 1.0, reaction_type=t) for a, b, t in directed[h]]
